@@ -47,3 +47,19 @@ def file_gateway(lines: list[tuple[str, str]], **kwargs: Any):
     text = "".join(f"{dtm} {rest}\n" for dtm, rest in lines)
     fh = io.TextIOWrapper(io.BytesIO(text.encode("utf-8", errors="replace")), encoding="utf-8", errors="replace")
     return Gateway(None, input_file=fh, **kwargs)
+
+
+def reset_transport_globals(disable_duty_cycle_limit: bool = True) -> None:
+    """Process-global transport state must not leak from one scenario into the next.
+
+    The duty-cycle bucket lives in a closure and refills on the *wall* clock, and the list of
+    pending controller sync cycles is a module global: with hundreds of scenarios per process
+    (each restarting the virtual clock) both would make later scenarios depend on earlier ones.
+    Checks that do not study transmit regulation (that is C11, in its own process) switch the
+    limiter off with the library's own debug flag, as the repository's tests do.
+    """
+    import ramses_tx.transport as tr
+
+    tr._global_sync_cycles.clear()
+    if disable_duty_cycle_limit:
+        tr._DBG_DISABLE_DUTY_CYCLE_LIMIT = True
